@@ -97,6 +97,8 @@ define_language! {
         Neg(i64) = "neg",
         Flag(bool) = "flag",
         Idx(Slot, AppliedId) = "idx",
+        // an operator without arguments next to the catch-all payload leaves: its text `nil` is an operator, not a Symbol
+        Nil() = "nil",
         Num(u32),
         Sym(Symbol),
     }
@@ -113,6 +115,7 @@ pub static LPAY: LangSig = LangSig {
         OpSig { name: "neg", fields: &[Fld::P] },
         OpSig { name: "flag", fields: &[Fld::P] },
         OpSig { name: "idx", fields: &[Fld::S, Fld::C(0)] },
+        OpSig { name: "nil", fields: &[] },
         OpSig { name: "#num", fields: &[Fld::P] },
         OpSig { name: "#sym", fields: &[Fld::P] },
     ],
